@@ -1,6 +1,7 @@
 """C11 — the formatter preserves meaning (structural clauses)."""
 from checks.common import Ctx
 from sa.report import Check
+from sa.rules import adjacency as A
 from sa.rules import fmt_rules as F
 from sa.rules import grammar_rules as GR
 
@@ -22,6 +23,7 @@ def main(tier):
     chk.run("R-GRAMMAR-EQ", GR.grammar_eq, r, False, floor=600, control=lambda: GR.control_grammar_eq(r))
     chk.run("R-HANDLER", GR.handler_arity, r, floor=370, control=lambda: GR.control_handler(r))
     chk.run("R-FMTLINEAR", F.fmtlinear, r, floor=300, control=lambda: F.control(r))
+    chk.run("R-ADJACENCY", A.adjacency, r, floor=300)
     chk.run("R-FMTGUARD", F.fmtguard, r, floor=4)
     chk.run("R-FMTSELFCHECK", F.sanity_check_shape, r, floor=3)
     return chk.finish()
